@@ -510,12 +510,9 @@ func (u *Unit) frameObligations(st *State) {
 		if final == entry {
 			continue
 		}
-		// objects allocated by this function are not caller-visible; listed
-		// locations may change; everything else must be equal (extensionally)
+		// objects allocated by this function (outside Alloc0) are not caller-visible;
+		// listed locations may change; every other entry object must be unchanged
 		exp := entry
-		for _, r := range u.freshRefs {
-			exp = tb.Store(exp, r, tb.Select(final, r))
-		}
 		var extra []*Term
 		if strings.HasPrefix(k, "E_") {
 			for _, s := range elemsAllowed[k] {
@@ -530,7 +527,10 @@ func (u *Unit) frameObligations(st *State) {
 				exp = tb.Store(exp, ref, tb.Select(final, ref))
 			}
 		}
-		goal := tb.And(append([]*Term{tb.Eq(final, exp)}, extra...)...)
+		r := tb.BoundVar("r", SInt)
+		u.m.UF("Alloc0", SBool, SInt)
+		main := tb.Forall([]*Term{r}, tb.Implies(tb.App("Alloc0", SBool, r), tb.Eq(tb.Select(final, r), tb.Select(exp, r))))
+		goal := tb.And(append([]*Term{main}, extra...)...)
 		u.oblige("frame", k, st, goal, token.NoPos, "locations outside `modifies` are unchanged ("+k+")")
 	}
 }
